@@ -386,6 +386,20 @@ def run(ctx):
             if got != [ref["AAAA"], ref["BB"]] or after != ref["CCC"]:
                 ctx.fail("a call failed or returned another call's data under this interleaving (or the call made "
                          "after it did)", meta, got + [after], [ref["AAAA"], ref["BB"], ref["CCC"]])
+        # two calls that receive byte-identical replies (same argument): each decodes its own copy
+        for k in points[::ctx.pick(4, 1)]:
+            del tr.sent[:]
+            res, nev, errs = run_schedule([call(client, "AAAA"), call(client, "AAAA")], {k: 1})
+            meta = {"style": style, "scenario": "same-reply-bytes", "preempt_after_event": k}
+            ctx.case(common.canon(meta), True)
+            ctx.dist["schedule:" + style + "/same-reply"] += 1
+            if errs:
+                ctx.fail("scheduler problem (deadlock between paused threads)", meta, errs, "both calls finish")
+                continue
+            got = [r[1] if r and r[0] == "ok" else r for r in res]
+            if got != [ref["AAAA"], ref["AAAA"]]:
+                ctx.fail("a call failed or returned damaged data under this interleaving (identical replies)", meta, got,
+                         [ref["AAAA"], ref["AAAA"]])
         # cold start: a freshly loaded WSDL per interleaving, so the memo cells are filled *during* the race
         cold, ctr = make_client(style)
         run_schedule([call(cold, "AAAA"), call(cold, "BB")], {}, watch=memo_writers())
@@ -427,9 +441,58 @@ def run(ctx):
             if got != [ref[a] for a in args]:
                 ctx.fail("a call failed or returned another call's data under this interleaving", meta, got,
                          [ref[a] for a in args])
+    two_operations(ctx)
     sys.setswitchinterval(old_switch)
     ctx.sample({"style": "encoded", "scenario": "two-calls", "preempt_after_event": 1234})
     ctx.sample({"style": "document", "scenario": "random-lines", "threads": 3, "switches": [[17, 1], [230, 2]]})
+
+
+def two_operations(ctx):
+    """Two DIFFERENT operations in flight on one client (and on a client and its clone), a caller-made header Element
+    configured: every request goes out with the SOAPAction of its own operation, is namespace-well-formed, and the
+    headers option is left as it was."""
+    from harness.props import c15
+    from suds.sax.element import Element
+    hdr = Element("Token", ns=("auth", "urn:auth"))
+    hdr.setText("t")
+    tr = wsdlkit.RecordingTransport(reply=None)
+    client = wsdlkit.client(c15.wsdl_two_ops("http://h.invalid/two"), transport=tr, soapheaders=hdr)
+
+    def op(c, name):
+        return lambda: getattr(c.service, name)()
+    for name in "fg":
+        op(client, name)()
+    res, total, errs = run_schedule([op(client, "f"), op(client, "g")], {})
+    pts = sorted(set(int(1 + i * (total / 2 - 1) / 40.0) for i in range(41)))
+    for who in ("same-client", "client+clone"):
+        for k in pts[::1 if who == "same-client" else 3]:
+            other = client if who == "same-client" else client.clone()
+            del tr.sent[:]
+            res, nev, errs = run_schedule([op(client, "f"), op(other, "g")], {k: 1})
+            meta = {"scenario": "two-operations/" + who, "preempt_after_event": k}
+            ctx.case(common.canon(meta), True)
+            ctx.dist["schedule:two-operations"] += 1
+            if errs or any(r is None or r[0] != "ok" for r in res):
+                ctx.fail("a call failed because another was in progress", meta, [errs, res], "both calls finish")
+                continue
+            bad = []
+            for sent in tr.sent:
+                try:
+                    root = xmlread.parse(sent["message"])
+                    opname = xmlread.find1(root, "Body")["children"][0]["name"][1]
+                    toks = [n for n in xmlread.walk(root) if n["name"] == ("urn:auth", "Token")]
+                except xmlread.XmlError as e:
+                    bad.append("not namespace-well-formed: %s" % e)
+                    continue
+                act = sent["headers"].get("SOAPAction")
+                act = act.decode() if isinstance(act, bytes) else act
+                if act != '"urn:act:%s"' % opname:
+                    bad.append("request for %s sent with SOAPAction %s" % (opname, act))
+                if len(toks) != 1:
+                    bad.append("request for %s carries %d configured header elements" % (opname, len(toks)))
+            if len(tr.sent) != 2 or bad or client.options.headers != {}:
+                ctx.fail("requests of concurrent calls do not each carry their own headers", meta,
+                         bad or [len(tr.sent), client.options.headers], "one request per call, own SOAPAction")
 
 
 def witness(ctx, k):
